@@ -161,3 +161,23 @@ func Recv(ch reflect.Value) (reflect.Value, bool) {
 	_, v, ok := S.Select([]reflect.SelectCase{{Dir: reflect.SelectRecv, Chan: ch}})
 	return v, ok
 }
+
+// TrySend / TryRecv: non-blocking operations are a select with a default case.
+func TrySend(ch reflect.Value, v reflect.Value) bool {
+	if S == nil {
+		return ch.TrySend(v)
+	}
+	chosen, _, _ := S.Select([]reflect.SelectCase{{Dir: reflect.SelectSend, Chan: ch, Send: v}, {Dir: reflect.SelectDefault}})
+	return chosen == 0
+}
+
+func TryRecv(ch reflect.Value) (reflect.Value, bool) {
+	if S == nil {
+		return ch.TryRecv()
+	}
+	chosen, v, ok := S.Select([]reflect.SelectCase{{Dir: reflect.SelectRecv, Chan: ch}, {Dir: reflect.SelectDefault}})
+	if chosen != 0 {
+		return reflect.Value{}, false
+	}
+	return v, ok
+}
